@@ -27,7 +27,11 @@
     available when this file was written); entry-level soundness (C02) is not assumed but proved here
     (`setSimJoin_sound_keys`).
 
-  Scope / hypotheses: arguments pass the validations; the right table (resp. the candidate set) has fewer than 2^40
+  Scope / hypotheses: arguments pass the validations; the theorems that CONCLUDE that the two calls return frames
+  (`*_njobs`) assume the body conditions `BodyOK` of SSJ/Props/Common.lean — present join values are strings, no
+  `_id` in the output header; they do not depend on `n_jobs`, and without them every call raises for every `n_jobs`
+  (`C15_body`) — resp. string match columns (`apply_matcher` with a tokenizer) / a `filter_pair` that does not raise on
+  the referenced pairs (`filter_candset`); the right table (resp. the candidate set) has fewer than 2^40
   rows (precision limit of the float arithmetic in `split_table`; `chunksFor_flatten`).  For `edit_distance_join`:
   finite threshold, q ≥ 1 and a bag tokenizer obeying the q-gram count lemma — in particular the real q-gram
   tokenizer `qgrams q pad` (`editDistanceJoin_njobs_qgrams`).  No hypothesis on the tokenizer is needed for the other
@@ -38,10 +42,11 @@
   depend on the per-chunk token ordering).
 -/
 import SSJ.Proofs.EntryGeneric
+import SSJ.Proofs.BodyOK
 import SSJ.Props.Common
 
 namespace SSJ.Props.C10
-open SSJ
+open SSJ SSJ.Props
 
 /-! ### `_id` -/
 
@@ -93,13 +98,14 @@ theorem chunk_count {α : Type} (table : List α) (nJobs cpu : Int)
 /-- `OverlapFilter.filter_tables` -/
 theorem overlapFilterTables_njobs (f : OverlapFilterObj) (a : TableArgs) (oss : Bool) (tok : String → List Tok)
     (l r : Frame) (hv : validateTablesAttrs a = .ok (l, r)) (hk : validateOutAndKeys a l r = .ok ())
-    (hlen : r.rows.length < 2 ^ 40) (nj cpu nj' cpu' : Int) :
+    (hlen : r.rows.length < 2 ^ 40) (nj cpu nj' cpu' : Int)
+    (hb : BodyOK a l r oss) :
     ∃ fr fr', overlapFilterTables f (a.withJobs nj) oss tok cpu = .ok fr ∧
       overlapFilterTables f (a.withJobs nj') oss tok cpu' = .ok fr' ∧
       fr.columns = fr'.columns ∧ fr.rows = fr'.rows := by
   obtain ⟨G, hG⟩ := Work.overlap_rowwise f oss tok
   obtain ⟨fr, fr', h1, h2, hc, hr⟩ :=
-    RT.njobs_eq (Work.overlap_faithful f oss tok) hG a l r f.allowMissing hlen nj cpu nj' cpu'
+    RT.njobs_eq (Work.overlap_faithful f oss tok) hG a l r f.allowMissing hlen nj cpu nj' cpu' hb
   exact ⟨fr, fr', (eg_overlapFilterTables_eq f (a.withJobs nj) oss tok cpu l r hv hk).trans h1,
     (eg_overlapFilterTables_eq f (a.withJobs nj') oss tok cpu' l r hv hk).trans h2, hc, hr⟩
 
@@ -107,39 +113,42 @@ theorem overlapFilterTables_njobs (f : OverlapFilterObj) (a : TableArgs) (oss : 
 theorem overlapJoin_njobs (j : JoinArgs) (t : TokObj) (toks : TokFn) (l r : Frame) (f : OverlapFilterObj)
     (hf : mkOverlapFilter j.threshold j.compOp j.allowMissing t = .ok f)
     (hv : validateTablesAttrs j.toTableArgs = .ok (l, r)) (hk : validateOutAndKeys j.toTableArgs l r = .ok ())
-    (hlen : r.rows.length < 2 ^ 40) (nj cpu nj' cpu' : Int) :
+    (hlen : r.rows.length < 2 ^ 40) (nj cpu nj' cpu' : Int)
+    (hb : BodyOK j.toTableArgs l r j.outSimScore) :
     ∃ fr fr', (overlapJoinPy (j.set j.allowMissing nj) t toks cpu).result = .ok fr ∧
       (overlapJoinPy (j.set j.allowMissing nj') t toks cpu').result = .ok fr' ∧
       fr.columns = fr'.columns ∧ fr.rows = fr'.rows := by
   obtain ⟨G, hG⟩ := Work.overlap_rowwise { overlapSize := j.threshold, compOp := j.compOp } j.outSimScore (toks true)
   obtain ⟨fr, fr', h1, h2, hc, hr⟩ :=
-    RT.njobs_eq (Work.overlap_faithful _ _ _) hG j.toTableArgs l r j.allowMissing hlen nj cpu nj' cpu'
+    RT.njobs_eq (Work.overlap_faithful _ _ _) hG j.toTableArgs l r j.allowMissing hlen nj cpu nj' cpu' hb
   exact ⟨fr, fr', (overlapJoinPy_eq (j.set j.allowMissing nj) t toks cpu l r f hf hv hk).trans h1,
     (overlapJoinPy_eq (j.set j.allowMissing nj') t toks cpu' l r f hf hv hk).trans h2, hc, hr⟩
 
 /-- `overlap_coefficient_join_py` -/
 theorem overlapCoefficientJoin_njobs (j : JoinArgs) (t : TokObj) (toks : TokFn) (l r : Frame)
     (hv : validateJoin "OVERLAP_COEFFICIENT" j t = .ok (l, r))
-    (hlen : r.rows.length < 2 ^ 40) (nj cpu nj' cpu' : Int) :
+    (hlen : r.rows.length < 2 ^ 40) (nj cpu nj' cpu' : Int)
+    (hb : BodyOK j.toTableArgs l r j.outSimScore) :
     ∃ fr fr', (overlapCoefficientJoinPy (j.set j.allowMissing nj) t toks cpu).result = .ok fr ∧
       (overlapCoefficientJoinPy (j.set j.allowMissing nj') t toks cpu').result = .ok fr' ∧
       fr.columns = fr'.columns ∧ fr.rows = fr'.rows := by
   obtain ⟨G, hG⟩ := Work.ovc_rowwise j.threshold j.compOp j.allowEmpty j.outSimScore (toks true)
   obtain ⟨fr, fr', h1, h2, hc, hr⟩ :=
-    RT.njobs_eq (Work.ovc_faithful _ _ _ _ _) hG j.toTableArgs l r j.allowMissing hlen nj cpu nj' cpu'
+    RT.njobs_eq (Work.ovc_faithful _ _ _ _ _) hG j.toTableArgs l r j.allowMissing hlen nj cpu nj' cpu' hb
   exact ⟨fr, fr', (overlapCoefficientJoinPy_eq (j.set j.allowMissing nj) t toks cpu l r hv).trans h1,
     (overlapCoefficientJoinPy_eq (j.set j.allowMissing nj') t toks cpu' l r hv).trans h2, hc, hr⟩
 
 /-- `SizeFilter.filter_tables` -/
 theorem sizeFilterTables_njobs (f : FilterObj) (a : TableArgs) (t : TokObj) (toks : TokFn)
     (l r : Frame) (hv : validateTablesAttrs a = .ok (l, r)) (hk : validateOutAndKeys a l r = .ok ())
-    (hlen : r.rows.length < 2 ^ 40) (nj cpu nj' cpu' : Int) :
+    (hlen : r.rows.length < 2 ^ 40) (nj cpu nj' cpu' : Int)
+    (hb : BodyOK a l r false) :
     ∃ fr fr', filterTables .size f (a.withJobs nj) t toks cpu = .ok fr ∧
       filterTables .size f (a.withJobs nj') t toks cpu' = .ok fr' ∧
       fr.columns = fr'.columns ∧ fr.rows = fr'.rows := by
   obtain ⟨G, hG⟩ := Work.sizeFilter_rowwise f (toks t.returnSet)
   obtain ⟨fr, fr', h1, h2, hc, hr⟩ :=
-    RT.njobs_eq (Work.filter_faithful .size f (toks t.returnSet)) hG a l r f.allowMissing hlen nj cpu nj' cpu'
+    RT.njobs_eq (Work.filter_faithful .size f (toks t.returnSet)) hG a l r f.allowMissing hlen nj cpu nj' cpu' hb
   exact ⟨fr, fr', (eg_filterTables_eq .size f (a.withJobs nj) t toks cpu l r hv hk).trans h1,
     (eg_filterTables_eq .size f (a.withJobs nj') t toks cpu' l r hv hk).trans h2, hc, hr⟩
 
@@ -157,21 +166,23 @@ theorem applyMatcher_njobs (a : MatcherArgs) (t : Option TokObj) (toks : TokFn) 
     (hv10 : validateKeyAttr a.lKey l = .ok ()) (hv11 : validateKeyAttr a.rKey r = .ok ())
     (hl : ∀ cr ∈ c.rows, cr.cell (c.colIdx a.candLKey) ∈ l.col a.lKey)
     (hr : ∀ cr ∈ c.rows, cr.cell (c.colIdx a.candRKey) ∈ r.col a.rKey)
-    (hlen : c.rows.length < 2 ^ 40) (nj cpu nj' cpu' : Int) :
+    (hlen : c.rows.length < 2 ^ 40) (nj cpu nj' cpu' : Int)
+    (hstr : t.isSome → StrColumn l a.lAttr ∧ StrColumn r a.rAttr) :
     ∃ fr fr', applyMatcher (a.withJobs nj) t toks sim cpu = .ok fr ∧
       applyMatcher (a.withJobs nj') t toks sim cpu' = .ok fr' ∧
       fr.columns = fr'.columns ∧ fr.rows = fr'.rows := by
   obtain ⟨fr, h1, c1, r1⟩ := applyMatcher_rows (a.withJobs nj) t toks sim cpu c l r hc hlt hrt hv1 hv2 hv3 hv4 hv5
-    hv6 hv7 hv8 hv9 hv10 hv11 hl hr (chunksFor_flatten c.rows nj cpu hlen)
+    hv6 hv7 hv8 hv9 hv10 hv11 hl hr (chunksFor_flatten c.rows nj cpu hlen) hstr
   obtain ⟨fr', h2, c2, r2⟩ := applyMatcher_rows (a.withJobs nj') t toks sim cpu' c l r hc hlt hrt hv1 hv2 hv3 hv4 hv5
-    hv6 hv7 hv8 hv9 hv10 hv11 hl hr (chunksFor_flatten c.rows nj' cpu' hlen)
+    hv6 hv7 hv8 hv9 hv10 hv11 hl hr (chunksFor_flatten c.rows nj' cpu' hlen) hstr
   refine ⟨fr, fr', h1, h2, ?_, ?_⟩
   · rw [c1, c2, matcherHeader_withJobs, matcherHeader_withJobs]
   · rw [r1, r2, matcherTableSpec_withJobs, matcherTableSpec_withJobs]
 
-/-- `filter_candset` (for any filter, given as its `filter_pair` `fp`): same columns, same rows in the same order for
-    every `n_jobs` -/
-theorem filterCandset_njobs (a : CandsetArgs) (fp : Cell → Cell → Bool) (c l r : Frame)
+/-- `filter_candset` (for any filter, given as its `filter_pair` — a Python call `fp` that does not raise on the
+    referenced value pairs, `hfp`; e.g. `filterPairPy k f tok` on string columns): same columns, same rows in the same
+    order for every `n_jobs` -/
+theorem filterCandset_njobs (a : CandsetArgs) (fp : Cell → Cell → Except PyErr Bool) (c l r : Frame)
     (hc : a.candset = some c) (hlt : a.ltable = some l) (hrt : a.rtable = some r)
     (hv1 : validateAttr a.candLKey c = .ok ()) (hv2 : validateAttr a.candRKey c = .ok ())
     (hv3 : validateAttr a.lKey l = .ok ()) (hv4 : validateAttr a.rKey r = .ok ())
@@ -183,14 +194,21 @@ theorem filterCandset_njobs (a : CandsetArgs) (fp : Cell → Cell → Bool) (c l
                                          lrow.cell (l.colIdx a.lAttr) = lval cr)
     (hr : ∀ cr ∈ c.rows, ∃ rrow ∈ r.rows, rrow.cell (r.colIdx a.rKey) = cr.cell (c.colIdx a.candRKey) ∧
                                          rrow.cell (r.colIdx a.rAttr) = rval cr)
+    (hfp : ∀ cr ∈ c.rows, ∃ b, fp (lval cr) (rval cr) = .ok b)
     (hlen : c.rows.length < 2 ^ 40) (nj cpu nj' cpu' : Int) :
     ∃ fr fr', filterCandset (a.withJobs nj) fp cpu = .ok fr ∧ filterCandset (a.withJobs nj') fp cpu' = .ok fr' ∧
       fr.columns = fr'.columns ∧ fr.rows = fr'.rows := by
+  let fpb : Cell → Cell → Bool := fun x y => match fp x y with | .ok b => b | .error _ => false
+  have hfp' : ∀ cr ∈ c.rows, fp (lval cr) (rval cr) = .ok (fpb (lval cr) (rval cr)) := by
+    intro cr hcr
+    obtain ⟨b, hb⟩ := hfp cr hcr
+    show _ = Except.ok (match fp (lval cr) (rval cr) with | .ok b => b | .error _ => false)
+    rw [hb]
   have hlen' : (candLabelled c).length < 2 ^ 40 := by rw [eg_candLabelled_length]; exact hlen
-  obtain ⟨fr, h1, c1, _, r1⟩ := filterCandset_rows (a.withJobs nj) fp cpu c l r hc hlt hrt hv1 hv2 hv3 hv4 hv5 hv6 hv7
-    hv8 hv9 hv10 lval rval hl hr (chunksFor_flatten _ nj cpu hlen')
-  obtain ⟨fr', h2, c2, _, r2⟩ := filterCandset_rows (a.withJobs nj') fp cpu' c l r hc hlt hrt hv1 hv2 hv3 hv4 hv5 hv6
-    hv7 hv8 hv9 hv10 lval rval hl hr (chunksFor_flatten _ nj' cpu' hlen')
+  obtain ⟨fr, h1, c1, _, r1⟩ := filterCandset_rows (a.withJobs nj) fp fpb cpu c l r hc hlt hrt hv1 hv2 hv3 hv4 hv5 hv6 hv7
+    hv8 hv9 hv10 lval rval hl hr hfp' (chunksFor_flatten _ nj cpu hlen')
+  obtain ⟨fr', h2, c2, _, r2⟩ := filterCandset_rows (a.withJobs nj') fp fpb cpu' c l r hc hlt hrt hv1 hv2 hv3 hv4 hv5 hv6
+    hv7 hv8 hv9 hv10 lval rval hl hr hfp' (chunksFor_flatten _ nj' cpu' hlen')
   exact ⟨fr, fr', h1, h2, c1.trans c2.symm, r1.trans r2.symm⟩
 
 /-! ### the edit-distance join: the same multiset of rows for every `n_jobs` -/
@@ -202,7 +220,8 @@ theorem editDistanceJoin_njobs (j : JoinArgs) (t : TokObj) (toks : TokFn) (l r :
     (hv : validateJoin "EDIT_DISTANCE" j t = .ok (l, r)) (hthr : FiniteNum j.threshold)
     (hq1 : 1 ≤ t.qval)
     (hqg : ∀ s s' : String, ((toks false s).diff (toks false s')).length ≤ t.qval.toNat * lev s s')
-    (hlen : r.rows.length < 2 ^ 40) (nj cpu nj' cpu' : Int) :
+    (hlen : r.rows.length < 2 ^ 40) (nj cpu nj' cpu' : Int)
+    (hb : BodyOK j.toTableArgs l r j.outSimScore) :
     ∃ fr fr', (editDistanceJoinPy (j.set j.allowMissing nj) t toks cpu).result = .ok fr ∧
       (editDistanceJoinPy (j.set j.allowMissing nj') t toks cpu').result = .ok fr' ∧
       fr.columns = fr'.columns ∧
@@ -210,7 +229,7 @@ theorem editDistanceJoin_njobs (j : JoinArgs) (t : TokObj) (toks : TokFn) (l r :
   obtain ⟨G, hG⟩ := Work.ed_rowwisePerm (edTau j.threshold) t.qval j.compOp j.outSimScore (toks false) hq1
     (validateJoin_ed_op j t l r hv) hqg
   obtain ⟨fr, fr', h1, h2, hc, hr⟩ :=
-    RT.njobs_perm (Work.ed_faithful _ _ _ _ _) hG j.toTableArgs l r j.allowMissing hlen nj cpu nj' cpu'
+    RT.njobs_perm (Work.ed_faithful _ _ _ _ _) hG j.toTableArgs l r j.allowMissing hlen nj cpu nj' cpu' hb
   exact ⟨fr, fr', (editDistanceJoinPy_eq (j.set j.allowMissing nj) t toks cpu l r hv hthr).trans h1,
     (editDistanceJoinPy_eq (j.set j.allowMissing nj') t toks cpu' l r hv hthr).trans h2, hc, hr⟩
 
@@ -218,13 +237,14 @@ theorem editDistanceJoin_njobs (j : JoinArgs) (t : TokObj) (toks : TokFn) (l r :
 theorem editDistanceJoin_njobs_qgrams (j : JoinArgs) (t : TokObj) (toks : TokFn) (l r : Frame) (pad : Bool)
     (hv : validateJoin "EDIT_DISTANCE" j t = .ok (l, r)) (hthr : FiniteNum j.threshold)
     (hq1 : 1 ≤ t.qval) (htok : toks false = qgrams t.qval.toNat pad)
-    (hlen : r.rows.length < 2 ^ 40) (nj cpu nj' cpu' : Int) :
+    (hlen : r.rows.length < 2 ^ 40) (nj cpu nj' cpu' : Int)
+    (hb : BodyOK j.toTableArgs l r j.outSimScore) :
     ∃ fr fr', (editDistanceJoinPy (j.set j.allowMissing nj) t toks cpu).result = .ok fr ∧
       (editDistanceJoinPy (j.set j.allowMissing nj') t toks cpu').result = .ok fr' ∧
       fr.columns = fr'.columns ∧
       (fr.rows.map (fun row => row.drop 1)).Perm (fr'.rows.map (fun row => row.drop 1)) :=
   editDistanceJoin_njobs j t toks l r hv hthr hq1
-    (fun s s' => by rw [htok]; exact qgrams_diff_le _ pad s s') hlen nj cpu nj' cpu'
+    (fun s s' => by rw [htok]; exact qgrams_diff_le _ pad s s') hlen nj cpu nj' cpu' hb
 
 /-- the characterisation behind it: in every chunk, right row `rs` is matched with exactly the left rows within the
     distance bound that share a q-gram with it -/
@@ -263,6 +283,7 @@ theorem setSimJoin_sound_keys (m : Measure) (j : JoinArgs) (t : TokObj) (toks : 
   rw [setSimJoinPy_eq m j t toks cpu l r hv] at hfr
   obtain ⟨fr', hfr', _, hrows⟩ := RT.run_ok (Work.setSim_faithful m j.threshold j.compOp j.allowEmpty j.outSimScore
     (toks true)) j.toTableArgs l r j.allowMissing j.nJobs cpu
+    (runTables_bodyOK _ _ _ _ _ _ _ _ hfr)
   rw [show j.toTableArgs.withJobs j.nJobs = j.toTableArgs from rfl, hfr] at hfr'
   cases hfr'
   obtain ⟨row, hrow, hkeys⟩ := hp
@@ -347,7 +368,7 @@ example : ∃ fr fr', (editDistanceJoinPy (exJoin.set false 1) exTokObj (fun _ =
     fr.columns = fr'.columns ∧
     (fr.rows.map (fun row => row.drop 1)).Perm (fr'.rows.map (fun row => row.drop 1)) :=
   editDistanceJoin_njobs_qgrams exJoin exTokObj (fun _ => qgrams 2 true) exL exR true (by decide)
-    (Or.inl ⟨1, rfl⟩) (by decide) rfl (by decide) 1 4 7 2
+    (Or.inl ⟨1, rfl⟩) (by decide) rfl (by decide) 1 4 7 2 (by decide +kernel)
 
 /-- … and those of the exact statements: `OverlapFilter.filter_tables` on the same tables -/
 example : ∃ fr fr', overlapFilterTables { overlapSize := .int 1, compOp := ">=" } (exJoin.toTableArgs.withJobs 1) true
@@ -355,6 +376,7 @@ example : ∃ fr fr', overlapFilterTables { overlapSize := .int 1, compOp := ">=
     overlapFilterTables { overlapSize := .int 1, compOp := ">=" } (exJoin.toTableArgs.withJobs (-1)) true
       (fun s => [s]) 8 = .ok fr' ∧ fr.columns = fr'.columns ∧ fr.rows = fr'.rows :=
   overlapFilterTables_njobs _ exJoin.toTableArgs true _ exL exR (by decide) (by decide) (by decide) 1 4 (-1) 8
+    (by decide +kernel)
 
 section AxiomCheck
 #print axioms ids
